@@ -12,7 +12,13 @@ import os
 import sys
 
 CRASH_EXIT = 77
-_S = {"n": 0, "target": None, "torn": 0, "trace": None, "installed": False, "active": False, "root": None}
+DIED_EXIT = 78
+_S = {"n": 0, "target": None, "torn": 0, "trace": None, "installed": False, "active": False, "root": None, "mode": "exit"}
+
+
+class InjectedDeath(BaseException):
+    """mode 'raise': the process dies by an exception raised at the operation (an interrupt, a full disk) - the stack
+    unwinds, every finally / except / with of the code under test runs, then the process ends"""
 
 
 def _relevant(path):
@@ -40,6 +46,9 @@ def _event(kind, path, nbytes=None):
     if _S["target"] is not None and _S["n"] == _S["target"]:
         if kind == "write" and _S["torn"] > 0 and nbytes:
             return min(_S["torn"], nbytes - 1) if nbytes > 1 else 0
+        if _S.get("mode") == "raise":
+            _S["target"] = None      # what the unwinding code does afterwards is not interfered with
+            raise InjectedDeath("%s %s" % (kind, path))
         os._exit(CRASH_EXIT)
     return None
 
@@ -52,6 +61,9 @@ class HookedRaw(io.FileIO):
         if k is not None:
             if k > 0:
                 super().write(bytes(b[:k]))
+            if _S.get("mode") == "raise":
+                _S["target"] = None
+                raise InjectedDeath("torn write %s" % self.name)
             os._exit(CRASH_EXIT)
         return super().write(b)
 
@@ -100,7 +112,7 @@ def install(root):
         _S["installed"] = True
 
 
-def run_in_child(root, fn, target=None, torn=0, record=False):
+def run_in_child(root, fn, target=None, torn=0, record=False, mode="exit"):
     """fork; in the child run fn() under the interposer. Returns (status, trace) where status is 'completed',
     'crashed' (died at the target operation) or 'error:<n>'; trace only when record=True."""
     r, w = os.pipe()
@@ -112,14 +124,23 @@ def run_in_child(root, fn, target=None, torn=0, record=False):
             _S["n"] = 0
             _S["target"] = target
             _S["torn"] = torn
+            _S["mode"] = mode
             _S["trace"] = [] if record else None
             _S["active"] = True
             try:
                 fn()
+            except InjectedDeath:
+                _S["active"] = False
+                os._exit(DIED_EXIT)
             except BaseException:
                 _S["active"] = False
+                if mode == "raise" and _S["target"] is None and target is not None:
+                    os._exit(DIED_EXIT)     # the code under test turned the injected death into another exception
                 os.write(w, b"EXC")
                 os._exit(3)
+            if mode == "raise" and _S["target"] is None and target is not None:
+                _S["active"] = False
+                os._exit(DIED_EXIT)         # ... or swallowed it: the writer carried on; the process ends here all the same
             _S["active"] = False
             if record:
                 import json
@@ -146,6 +167,6 @@ def run_in_child(root, fn, target=None, torn=0, record=False):
 
             trace = [tuple(x) for x in json.loads(data.decode())]
         return "completed", trace
-    if code == CRASH_EXIT:
+    if code in (CRASH_EXIT, DIED_EXIT):
         return "crashed", None
     return "error:%d" % code, None
